@@ -1,5 +1,6 @@
 //! Verification harness: runs the real implementation (path dependency on /repo)
 //! and prints canonical observations. One sub-command per engine.
+mod policy;
 mod tables;
 
 fn main() {
@@ -10,6 +11,7 @@ fn main() {
     }
     match args[1].as_str() {
         "tables" => tables::run(&args[2..]),
+        "policy" => policy::run(&args[2..]),
         other => {
             eprintln!("unknown engine {}", other);
             std::process::exit(2);
